@@ -4,7 +4,10 @@ from specs.units.batch_read_parse import BLOCK_MIRROR, CONSTS, RKYV_RULES
 
 BLK = "src/wal/block.rs"
 
-RULES = RKYV_RULES + IOERR_RULES + TO_STRING + [
+RULES = RKYV_RULES + DECODE_CALL_RULES + IOERR_RULES + TO_STRING + [
+    dict(rule="R5", kind="re", dotall=True, pat=r"decode_metadata\((\w+)\.as_slice\(\)\)\.ok_or_else\(\|\| \{\s*(io_err\(IoKind::\w+\))\s*\}\)\?",
+         repl=r"(match decode_metadata(\1.as_slice()) { Some(m) => m, None => return Err(\2) })", min=0, why="ok_or_else(|| const)? -> explicit match (same control flow)"),
+    dict(rule="R6", kind="re", pat=r"self\.mmap\.len\(\)", repl="sys_len(sys, &self.mmap)", min=0, why="SharedMmap::len -> ghost-disk stub"),
     dict(rule="R6", kind="re", pat=r"self\.mmap\.write\(", repl="sys_write(sys, &self.mmap, ", min=0, why="SharedMmap::write -> ghost-disk stub"),
     dict(rule="R6", kind="re", pat=r"self\.mmap\.read\(", repl="sys_read(sys, &self.mmap, ", min=0, why="SharedMmap::read -> ghost-disk stub"),
     dict(rule="R5", kind="re", dotall=True, pat=r"rkyv::to_bytes::<_, 256>\(&new_meta\)\.map_err\(\|e\| \{.*?\}\)\?", repl="(match rkyv_to_bytes_metadata(&new_meta) { Ok(b) => b, Err(_) => return Err(io_err(IoKind::Other)) })", min=0,
@@ -33,7 +36,7 @@ UNIT = dict(
         dict(kind="model", file="rkyv_write.rs"),
         dict(kind="model", file="bytes_model_d.rs"),
         dict(kind="model", file="block_rw_model.rs"),
-        CHECKSUM_ITEM,
+        CHECKSUM_ITEM, DECODE_ITEM,
         dict(kind="fn", file=BLK, path="impl Block / fn write", sig_rules=SIG_W, rules=RULES,
              hints=[dict(before="        Ok(())\n    }", text="""        proof {
             axiom_rkyv_roundtrip(new_meta);
@@ -56,8 +59,7 @@ UNIT = dict(
              requires=[("", "sys.files@.contains_key(self.mmap.file)"),
                        ("", "bytes_well_formed_w()"),
                        ("C16,C11:read_header_inside_the_file", "self.offset + in_block_offset + PREFIX_META_SIZE <= sys.files@[self.mmap.file].len()"),
-                       ("", "sys.files@[self.mmap.file].len() <= 0x7fff_ffff_ffff"),
-                       ("C11:context_W_payload_inside_the_file", "entry_hdr_ok_d(sys.files@[self.mmap.file], self.offset + in_block_offset) ==> self.offset + in_block_offset + PREFIX_META_SIZE + entry_size_d(sys.files@[self.mmap.file], self.offset + in_block_offset) <= sys.files@[self.mmap.file].len()")],
+                       ("", "sys.files@[self.mmap.file].len() <= 0x7fff_ffff_ffff")],
              ensures=[
                  ("C01,C11:read_ok_returns_exactly_the_entry_at_that_offset",
                   "ret matches Ok(p) ==> entry_ok_d(sys.files@[self.mmap.file], self.offset + in_block_offset) && p.0.data@ == sys.files@[self.mmap.file].subrange(self.offset + in_block_offset + 256, self.offset + in_block_offset + 256 + entry_size_d(sys.files@[self.mmap.file], self.offset + in_block_offset)) && p.1 == PREFIX_META_SIZE + entry_size_d(sys.files@[self.mmap.file], self.offset + in_block_offset)"),
@@ -79,5 +81,19 @@ UNIT = dict(
             }"""),
                     dict(before="        Ok(())\n    }", text="        proof { assert(zeros@ =~= Seq::new(size as nat, |i: int| 0u8)); }")]),
         dict(kind="model", file="block_rw_theorem.rs"),
+        # the same function once more WITHOUT context W: arbitrary (damaged) bytes on disk
+        dict(kind="fn", file=BLK, path="impl Block / fn read", name="read_damaged",
+             sig="pub fn read_damaged(&self, sys: &Sys, in_block_offset: u64) -> (ret: IoResult<(Entry, usize)>)",
+             sig_source_norm="fn read(&self, in_block_offset: u64) -> std::io::Result<(Entry, usize)>",
+             rules=RULES,
+             requires=[("", "sys.files@.contains_key(self.mmap.file)"),
+                       ("C11:read_header_inside_the_file", "self.offset + in_block_offset + PREFIX_META_SIZE <= sys.files@[self.mmap.file].len()"),
+                       ("", "sys.files@[self.mmap.file].len() <= 0x7fff_ffff_ffff")],
+             ensures=[
+                 ("C11:whatever_the_bytes_a_returned_payload_lies_inside_the_file_and_matches_its_checksum",
+                  "ret matches Ok(p) ==> entry_ok_d(sys.files@[self.mmap.file], self.offset + in_block_offset) && valid_archive(sys.files@[self.mmap.file].subrange(self.offset + in_block_offset + 2, self.offset + in_block_offset + 2 + meta_len_of(sys.files@[self.mmap.file][self.offset + in_block_offset], sys.files@[self.mmap.file][self.offset + in_block_offset + 1]))) && p.0.data@ == sys.files@[self.mmap.file].subrange(self.offset + in_block_offset + 256, self.offset + in_block_offset + 256 + entry_size_d(sys.files@[self.mmap.file], self.offset + in_block_offset))"),
+             ],
+             hints=[dict(after="aligned.extend_from_slice(&meta_buffer[2..2 + meta_len]);",
+                         text="        proof { assert(aligned@ =~= sys.files@[self.mmap.file].subrange(self.offset + in_block_offset + 2, self.offset + in_block_offset + 2 + meta_len)); }")]),
     ],
 )
